@@ -51,6 +51,10 @@ struct Ctx {
   // throw spec: stage k throws for tags in [throwLo[k], throwHi[k]] (hi < lo: never)
   long throwLo[kMaxStages] = {0, 0, 0, 0, 0};
   long throwHi[kMaxStages] = {-1, -1, -1, -1, -1};
+  // slow tail: stage slowStage sleeps ~slowUs for tags >= slowFrom (-1: off)
+  int slowStage = -1;
+  long slowFrom = 0;
+  int slowUs = 0;
 
   // ---- monitors
   std::atomic<long> next{0};
@@ -153,6 +157,11 @@ static inline void dwell(int k, long tag) {
     vrt::spinFor(j);
   }
   if (g.yieldInStage && ((tag + k) & 3) == 0) std::this_thread::yield();
+  if (k == g.slowStage && tag >= g.slowFrom && g.slowUs > 0) {
+    // 60..140 % so that two slow items do not finish in lock-step
+    int us = g.slowUs * 6 / 10 + static_cast<int>(vrt::mix(g.salt + 991, static_cast<uint64_t>(tag)) % static_cast<uint64_t>(g.slowUs * 8 / 10 + 1));
+    usleep(static_cast<useconds_t>(us));
+  }
 }
 
 static inline void chainFail(int k, long tag, long what) {
@@ -195,6 +204,28 @@ static inline bool stageBody(int k, Item& it) {
   it.value = chainStep(it.value, k);
   it.lastStage = k;
   return !filteredAt(k, tag);
+}
+
+// Body of a sink that takes its input by const reference: the item (and its payload) is still owned
+// by the pipeline's closure while the stage runs and when it throws.
+static inline void stageBodyConst(int k, const Item& it) {
+  InflightScope sc(k);
+  long tag = it.tag;
+  if (tag < 0 || tag >= kMaxTags) {
+    chainFail(k, tag, 1);
+    return;
+  }
+  g_cnt[k][tag].fetch_add(1, std::memory_order_relaxed);
+  if (it.value != chainAfter(tag, k - 1)) chainFail(k, tag, 2);
+  if (it.lastStage != k - 1) chainFail(k, tag, 3);
+  if (!it.p || it.p->tag != tag) {
+    chainFail(k, tag, 4);
+  } else {
+    it.p->hops++;
+    if (it.p->hops != k) chainFail(k, tag, 5);
+  }
+  dwell(k, tag);
+  if (throwsAt(k, tag)) doThrow(k, tag);
 }
 
 // Generator body. Returns false when exhausted.
@@ -262,6 +293,21 @@ struct Sink {
     stageBody(k, in);
   }
 };
+// const-reference sink and rvalue-reference transform: nothing is moved out of the pipeline's
+// closure before a throw
+struct SinkCR {
+  int k;
+  void operator()(const Item& in) {
+    stageBodyConst(k, in);
+  }
+};
+struct XValRR {
+  int k;
+  Item operator()(Item&& in) {
+    stageBody(k, in); // may throw: `in` still lives in the caller's closure
+    return std::move(in);
+  }
+};
 struct Single {
   bool operator()() {
     InflightScope sc(0);
@@ -275,7 +321,8 @@ struct Single {
 };
 
 // ------------------------------------------------------------------ shapes
-// kind per stage: 'g' GenOpt, 'r' GenOp (OpResult), 'v' XVal, 'o' XOpt, 'p' XOp (OpResult), 's' Sink, '1' Single
+// kind per stage: 'g' GenOpt, 'r' GenOp (OpResult), 'v' XVal, 'o' XOpt, 'p' XOp (OpResult), 's' Sink, 'x' Single,
+// 'c' SinkCR (const Item&), 'w' XValRR (Item&&)
 // upper case = wrapped with dispenso::stage(f, limit); lower case = passed as a plain function (serial).
 struct ShapeInfo {
   const char* code; // e.g. "GvS"
@@ -290,3 +337,4 @@ void runShapes_g2(int shape, dispenso::ThreadPool& pool);
 void runShapes_g3(int shape, dispenso::ThreadPool& pool);
 void runShapes_g4(int shape, dispenso::ThreadPool& pool);
 void runShapes_g5(int shape, dispenso::ThreadPool& pool);
+void runShapes_g6(int shape, dispenso::ThreadPool& pool);
